@@ -27,27 +27,97 @@ def balancing_size(ranges, ov):
     return None
 
 
-def gen_case(seed, idx):
-    return {"seed": seed, "idx": idx}
+def small_layouts(aw=3, maxn=3):
+    """every layout of up to `maxn` registers of 1..3 words in 2**aw addresses (ascending, disjoint)"""
+    top, out = 1 << aw, []
+
+    def rec(start, cur):
+        if cur:
+            out.append(tuple(cur))
+        if len(cur) == maxn:
+            return
+        for s_ in range(start, top):
+            for n in (1, 2, 3):
+                if s_ + n <= top:
+                    rec(s_ + n, cur + [(s_, n)])
+    rec(0, [])
+    return out
+
+
+_SMALL = small_layouts()
+_OVS = [None, 0, 1, 2]
+_DIRS = ["rw", "r", "w"]
+
+
+def exh_count():
+    return len(_SMALL) * len(_OVS) * 3
+
+
+def gen_case(seed, idx, mode=None):
+    return {"seed": seed, "idx": idx, "mode": mode}
 
 
 def run_impl(case):
     rnd = lib.rng_for(case["seed"], case["idx"], 1920)
-    dw = rnd.choice([1, 8, 8, 16])
-    aw = rnd.randint(2, 6)
-    mm = MemoryMap(addr_width=aw, data_width=dw, alignment=0)
+    mode = case.get("mode")
     regs = []
-    for i in range(rnd.randint(1, 6)):
-        n = rnd.choice([1, 1, 2, 2, 3, 4, 5, 6])
-        r = El(n * dw - rnd.choice([0, 0, 1]) if n * dw > 1 else 1, rnd.choice(["r", "w", "rw", "rw"]))
-        try:
-            mm.add_resource(r, name=f"r{i}", size=n, addr=rnd.randrange(0, 1 << aw) if rnd.random() < 0.8 else None)
+    if mode == "exh":
+        # bounded-exhaustive: EVERY layout of up to three registers in eight addresses x sharing limit x one
+        # of three direction patterns (all rw / alternating r,w / first register w, the others r)
+        x = case["idx"]
+        lay = _SMALL[x % len(_SMALL)]; x //= len(_SMALL)
+        ov = _OVS[x % len(_OVS)]; x //= len(_OVS)
+        pat = x % 3
+        dw, aw = 8, 3
+        mm = MemoryMap(addr_width=aw, data_width=dw, alignment=0)
+        for k, (s_, n) in enumerate(lay):
+            acc = "rw" if pat == 0 else (("r", "w")[k % 2] if pat == 1 else ("w" if k == 0 else "r"))
+            r = El(n * dw, acc)
+            mm.add_resource(r, name=f"r{k}", size=n, addr=s_)
             regs.append(r)
-        except ValueError:
-            pass
-    if not regs:
-        return {"skip": True}
-    ov = rnd.choice([None, 0, 0, 1, 1, 2, 3])
+    elif mode == "big":
+        # large address spaces: a few registers far apart (the shadow may have to span all address bits)
+        dw, aw = 8, rnd.choice([16, 24, 32, 32])
+        mm = MemoryMap(addr_width=aw, data_width=dw, alignment=0)
+        for i in range(rnd.randint(2, 4)):
+            n = rnd.choice([1, 2, 3, 4])
+            r = El(n * dw, rnd.choice(["rw", "rw", "r", "w"]))
+            try:
+                mm.add_resource(r, name=f"r{i}", size=n, addr=rnd.choice([0, 1, 1 << (aw - 1), (1 << aw) - 4, rnd.randrange(0, 1 << aw)]))
+                regs.append(r)
+            except ValueError:
+                pass
+        if not regs:
+            return {"skip": True}
+        ov = rnd.choice([0, 0, 1, None])
+    else:
+        dw = rnd.choice([1, 8, 8, 16])
+        aw = rnd.randint(2, 6)
+        mm = MemoryMap(addr_width=aw, data_width=dw, alignment=0)
+        for i in range(rnd.randint(1, 6)):
+            n = rnd.choice([1, 1, 2, 2, 3, 4, 5, 6])
+            r = El(n * dw - rnd.choice([0, 0, 1]) if n * dw > 1 else 1, rnd.choice(["r", "w", "rw", "rw"]))
+            try:
+                mm.add_resource(r, name=f"r{i}", size=n, addr=rnd.randrange(0, 1 << aw) if rnd.random() < 0.8 else None)
+                regs.append(r)
+            except ValueError:
+                pass
+        if not regs:
+            return {"skip": True}
+        ov = rnd.choice([None, 0, 0, 1, 1, 2, 3])
+    if mode in ("exh", "big"):
+        from amaranth.hdl import Fragment
+        import resource as _res
+        soft, hard = _res.getrlimit(_res.RLIMIT_AS)
+
+        def convert(c, extra=()):            # elaboration only (no RTLIL), under a 6 GiB address-space cap
+            _res.setrlimit(_res.RLIMIT_AS, (min(6 << 30, hard) if hard != _res.RLIM_INFINITY else 6 << 30, hard))
+            try:
+                return Fragment.get(c, None)
+            finally:
+                _res.setrlimit(_res.RLIMIT_AS, (soft, hard))
+    else:
+        from .elab import convert
     layout = sorted((s, e, r) for r, _, (s, e) in mm.resources())
     lines = [f"case {dw} {'-' if ov is None else ov} {'-' if ov is None else ov} {len(layout)}"]
     for s, e, r in layout:
